@@ -409,6 +409,10 @@ func pbErr(err error) string {
 // ---------------------------------------------------------------- implementation answers
 
 var (
+	// prevOut: the previous result of each marshaller instance with a private copy of its bytes: a Marshal result is kept
+	// by its caller (FullKV.Save hands it to a file writer that writes later), so the NEXT Marshal on the same
+	// instance must leave it untouched
+	prevOut = map[string][2][]byte{}
 	mVT  = &marshaller.VTproto{}
 	mPB  = &marshaller.Proto{}
 	mPF  = &marshaller.ProtoingFast{}
@@ -512,11 +516,18 @@ func implStore(line string, ps []kvPair, dp []string, dup bool) (string, storeBy
 		}
 	}
 
+	aliasCheck := func(name string, b []byte) {
+		if p, ok := prevOut[name]; ok && !bytes.Equal(p[0], p[1]) {
+			fail("C18/marshal-result-overwritten-by-next-marshal/"+name, fmt.Sprintf("the bytes returned by the previous %s.Marshal changed when Marshal was called again on the same instance", name), line)
+		}
+		prevOut[name] = [2][]byte{b, append([]byte{}, b...)}
+	}
 	// VTproto (the default marshaller)
 	if b, err := mVT.Marshal(mk()); err != nil {
 		ans = append(ans, "vt=err")
 		fail("C18/vtproto-marshal-error", err.Error(), line)
 	} else {
+		aliasCheck("vtproto", b)
 		sb.vt = b
 		ans = append(ans, "vt="+reorderStore(b, ps))
 		checkVTRead("vtproto", b)
@@ -527,6 +538,7 @@ func implStore(line string, ps []kvPair, dp []string, dup bool) (string, storeBy
 		ans = append(ans, "pf=err")
 		fail("C18/protoingfast-marshal-error", err.Error(), line)
 	} else {
+		aliasCheck("protoingfast", b)
 		sb.pf = b
 		ans = append(ans, "pf="+reorderStore(b, ps))
 		checkVTRead("protoingfast", b)
@@ -546,6 +558,7 @@ func implStore(line string, ps []kvPair, dp []string, dup bool) (string, storeBy
 			fail("C18/standard-encoder-error", err.Error(), line)
 		}
 	} else {
+		aliasCheck("proto", b)
 		sb.pb = b
 		ans = append(ans, "pb="+reorderStore(b, ps))
 		checkVTRead("proto", b)
@@ -556,6 +569,7 @@ func implStore(line string, ps []kvPair, dp []string, dup bool) (string, storeBy
 		ans = append(ans, "bin=err")
 		fail("C18/binary-marshal-error", err.Error(), line)
 	} else {
+		aliasCheck("binary", b)
 		sb.bin = b
 		ans = append(ans, "bin="+reorderBinary(b, ps))
 		d, _, err := mBin.Unmarshal(b)
